@@ -668,7 +668,7 @@ func (f FixedBitSet) WriteTo(w io.Writer) (n int64, err error) {
 }
 
 func (f FixedBitSet) ReadFrom(r io.Reader) (n int64, err error) {
-	n2, err := r.Read(f)
+	n2, err := io.ReadFull(r, f)
 	return int64(n2), err
 }
 
